@@ -48,11 +48,11 @@ const srvWait = 15 * time.Second
 
 type srvEnv struct {
 	mu           sync.Mutex
-	connecting   int             // the client number whose connection is being accepted
-	addrToClient map[string]int  // remote address -> client number
-	acceptCount  map[int]uint64  // count argument given to the accept callback
-	closeCalls   map[int][]bool  // isServerShutdown flags of the close callback calls
-	handlerStart map[int]bool    // request id -> handler entered
+	connecting   int            // the client number whose connection is being accepted
+	addrToClient map[string]int // remote address -> client number
+	acceptCount  map[int]uint64 // count argument given to the accept callback
+	closeCalls   map[int][]bool // isServerShutdown flags of the close callback calls
+	handlerStart map[int]bool   // request id -> handler entered
 	holdAccept   map[int]chan struct{}
 	acceptHeld   map[int]bool
 	blockHandler map[int]chan struct{} // request id -> released
@@ -297,6 +297,10 @@ func runSrv(ts []string) string {
 		return "e-listen"
 	}
 	addr := listener.Addr().String()
+	if variantOf(strings.Join(ts, " "))%2 == 1 {
+		// Serve(ctx, listener, handler) takes ANY net.Listener: one that reports its own error once it is closed
+		listener = &ownErrListener{Listener: listener}
+	}
 	ctx, cancel := context.WithCancel(context.Background())
 	defer cancel()
 	serveRet := make(chan error, 1)
@@ -360,7 +364,7 @@ func runSrv(ts []string) string {
 			return ok
 		})
 	}
-	pendingID := map[int]int{} // client -> id of the request in flight
+	pendingID := map[int]int{}   // client -> id of the request in flight
 	bigPending := map[int]bool{} // client -> the server is blocked writing a big reply to it
 	isBusy := func(k int) bool {
 		if bigPending[k] {
@@ -953,4 +957,43 @@ func execSrvChild(ts []string) string {
 		return line[i+1:]
 	}
 	return "e-child-output"
+}
+
+// ownErrListener is a caller-supplied listener whose Accept, once the listener was closed, fails with an error of its
+// own (not net.ErrClosed)
+type ownErrListener struct {
+	net.Listener
+	closed atomic.Bool
+}
+
+var errOwnListenerClosed = errors.New("own listener: closed")
+
+func (l *ownErrListener) Accept() (net.Conn, error) {
+	c, err := l.Listener.Accept()
+	if err != nil && l.closed.Load() {
+		return nil, errOwnListenerClosed
+	}
+	if err == nil {
+		c = &eagerDeadlineConn{Conn: c}
+	}
+	return c, err
+}
+
+// eagerDeadlineConn is a connection of such a listener: a Read that delivers bytes reports, together with them, that its
+// deadline has passed (io.Reader: "may return n > 0 and a non-nil error"; the bytes count)
+type eagerDeadlineConn struct {
+	net.Conn
+}
+
+func (c *eagerDeadlineConn) Read(p []byte) (int, error) {
+	n, err := c.Conn.Read(p)
+	if n > 0 && err == nil {
+		return n, os.ErrDeadlineExceeded
+	}
+	return n, err
+}
+
+func (l *ownErrListener) Close() error {
+	l.closed.Store(true)
+	return l.Listener.Close()
 }
